@@ -448,7 +448,7 @@ func c14ExecLoop(sc c14Loop) (string, map[string]bool) {
 		if userSeen.Load() >= int64(len(sc.Burst)) && lw != 0 && time.Since(time.Unix(0, lw)) > 12*tick+20*time.Millisecond {
 			break
 		}
-		if time.Now().After(deadline) {
+		if deadlinePassed(deadline) {
 			return fmt.Sprintf("checkpoint writes never stop after a burst of %d user events: %d writes so far, %d fed back (the library feeds on its own writes)", len(sc.Burst), writes.Load(), feedback.Load()), labels
 		}
 		time.Sleep(tick / 2)
